@@ -29,7 +29,7 @@ CHECKS = {
             "frequencies; isolated subsets against the lower-dimensional integrator (same dt) or a replay of the recorded dt sequence; "
             "no mutations into frozen/nomut populations; frozen+migration rejected for every (population, rate) pair. ASan overlay in thorough; thorough also runs the repository's own test files under the same tap (ambient monitors, vf/ambient.py).",
             "trapezoid weights of the kernel's own grid; tap is a secondary monitor (reports 'not attached' if Integration.int_c is renamed)", "DESIGN.md §2 C04"),
-    "C02": ("differential monitor: every kernel/driver step is re-solved by an independent dense flux-form reference (O-scheme); ASan+UBSan build of the kernels in the thorough tier",
+    "C02": ("differential monitor: every kernel/driver step is re-solved by an independent dense flux-form reference (O-scheme); ASan+UBSan build of the kernels and a native kernel driver under valgrind memcheck in the thorough tier",
             "Single steps of all 15 per-axis kernels through the Cython entry points (cubic arrays, a different grid per axis, zero and "
             "non-zero rates, both delj settings incl. overflow and tiny-advection regimes) and through ctypes on non-cubic shapes, "
             "one-step runs of one_pop..five_pops (precomputed-coefficient and on-the-fly drivers incl. mutation injection and sweep "
